@@ -126,7 +126,18 @@ func sweepNewArgs(kind string, tier string, rng *rand.Rand, shard, nshards int, 
 	}
 }
 
+// requests whose exported ProtocolID header field was set before encoding (a sample of the constructor sweep)
+func genNewreqP(rng *rand.Rand, shard, nshards int, emit emitter) {
+	sweepNewArgs("newreq", "quick", rng, shard, nshards, []string{"t"}, func(op string) {
+		if rng.Intn(12) == 0 {
+			pid := []int{1, 256, 0xFFFF, 1 + rng.Intn(65535)}[rng.Intn(4)]
+			emit(fmt.Sprintf("newreqp %d %s", pid, strings.TrimPrefix(op, "newreq ")))
+		}
+	})
+}
+
 func genC01(tier string, rng *rand.Rand, shard, nshards int, emit emitter) {
+	genNewreqP(rng, shard, nshards, emit)
 	sweepNewArgs("newreq", tier, rng, shard, nshards, []string{"t", "r"}, emit)
 	for n := 0; n <= 2100; n++ {
 		if mine(n, shard, nshards) {
@@ -720,6 +731,15 @@ func genC03(tier string, rng *rand.Rand, shard, nshards int, emit emitter) {
 			}
 		}
 	}
+	// ErrorParseRTU (the error type of the RTU request parsers) encodes through its own Bytes()
+	for f := 0; f < 256; f++ {
+		for _, c := range []int{0, 1, 2, 3, 4, 11, 12, 128, 255, rng.Intn(256)} {
+			i++
+			if mine(i, shard, nshards) {
+				emit(fmt.Sprintf("errpbytes %d %d %d", u8(rng), f, c))
+			}
+		}
+	}
 	// response values with arbitrary, also inconsistent, fields (byte count vs payload length), encoded by the library
 	for _, fc := range []int{1, 2, 3, 4, 23} {
 		for k := 0; k < 260; k++ {
@@ -919,6 +939,7 @@ func genC11(tier string, rng *rand.Rand, shard, nshards int, emit emitter) {
 func genC18(tier string, rng *rand.Rand, shard, nshards int, emit emitter) {
 	// the consumer of the classifier: a frame is dispatched only once the announced number of bytes is there
 	genC15("sample", rng, shard, nshards, emit)
+	genNewreqP(rng, shard, nshards, emit)
 	// prefixes of encodable frames
 	sweepNewArgs("cls", tier, rng, shard, nshards, []string{"t"}, func(op string) {
 		// op = "cls <args>"; append prefix lengths
